@@ -332,6 +332,26 @@ impl Exec {
                         }
                     }
                 }
+                ["#", "http", m, h, want] => {
+                    // the URL through the example itself: start_server on a loopback socket, AppRouter::handle, the real
+                    // route table. "Not routed" is the router's own answer: 404 with an empty body (handlers answer with JSON).
+                    if let Some(Ok(url)) = unhex(h).map(String::from_utf8) {
+                        match crate::ociapp::request(m, &url) {
+                            None => self.bump("http.unavailable"),
+                            Some((400, _)) => self.bump("http.rejected-by-hyper"),
+                            Some((status, len)) => {
+                                let routed = !(status == 404 && len == 0);
+                                self.bump(if routed { "http.routed" } else { "http.not-routed" });
+                                if routed != (*want == "routed") {
+                                    self.oracle.push(format!(
+                                        "O {idx} C17 the example answers {m} {url} with status {status} and {len} body bytes: {}, expected {want}",
+                                        if routed { "routed" } else { "not routed" }
+                                    ));
+                                }
+                            }
+                        }
+                    }
+                }
                 ["#", "psearch", r, n, paths @ ..] => self.psearch(idx, r, n, paths),
                 _ => {}
             }
